@@ -57,9 +57,6 @@ EXEMPT: Dict[str, str] = {
     "ParamLengthInfoType.decode_from_pdu/odxraise/OdxError/odxraise(f'Unspecified mandatory":
         "the length key parameter is not located before its user: ordering defect of the "
         "description, independent of the bytes",
-    "StaticField.decode_from_pdu/odxraise/OdxError/odxraise(f'Insufficient item byte size":
-        "dead check (cursor equals orig_cursor at this point); item size is a description "
-        "property",
 }
 
 
